@@ -759,7 +759,7 @@ class Mps(MatrixProduct):
             while True:
                 dt = min_abs(new_mps.evolve_config.guess_dt, evolve_dt-evolved_dt)
                 logger.debug(f"guess_dt: {new_mps.evolve_config.guess_dt}, try time step size: {dt}")
-                new_mps, error = sub_time_step_evolve(new_mps, dt, evolved_dt)    
+                trial_mps, error = sub_time_step_evolve(new_mps, dt, evolved_dt)
                 p = (new_mps.evolve_config.adaptive_rtol / (error + 1e-30)) ** (1/rk_config.order[0])
                 logger.debug(f"RKsolver:{rk_config.method} relative error: {error}, enlarge p parameter: {p}")
                 
@@ -770,6 +770,8 @@ class Mps(MatrixProduct):
                         f"evolution not converged, new guess_dt: {new_mps.evolve_config.guess_dt}"
                     )
                 else:
+                    # only an accepted trial replaces the state
+                    new_mps = trial_mps
                     if xp.allclose(dt+evolved_dt, evolve_dt):
                         new_mps.evolve_config.guess_dt = min_abs(
                             dt * p, new_mps.evolve_config.guess_dt
